@@ -1024,6 +1024,110 @@ fn many_members() -> Vec<BuildCase> {
     out
 }
 
+// zero-sized third-party members: writers without any field (a fixed keep-alive packet, say). Boxes of such
+// values do not allocate, so nothing about a member's address tells members apart.
+mod zst {
+    use rtcp_types::prelude::*;
+    use rtcp_types::{RtcpParseError, RtcpWriteError};
+
+    pub struct BeatView;
+    impl RtcpPacket for BeatView {
+        const MIN_PACKET_LEN: usize = 4;
+        const PACKET_TYPE: u8 = 250;
+    }
+    impl<'a> RtcpPacketParser<'a> for BeatView {
+        fn parse(_: &'a [u8]) -> Result<Self, RtcpParseError> {
+            Ok(BeatView)
+        }
+        fn header_data(&self) -> [u8; 4] {
+            [0x80, 250, 0, 0]
+        }
+    }
+
+    #[derive(Debug)]
+    pub struct Beat;
+    #[derive(Debug)]
+    pub struct PaddedBeat;
+    impl RtcpPacketWriter for Beat {
+        fn calculate_size(&self) -> Result<usize, RtcpWriteError> {
+            Ok(4)
+        }
+        fn write_into_unchecked(&self, buf: &mut [u8]) -> usize {
+            rtcp_types::utils::writer::write_header_unchecked::<BeatView>(0, 3, buf)
+        }
+        fn get_padding(&self) -> Option<u8> {
+            None
+        }
+    }
+    impl RtcpPacketWriter for PaddedBeat {
+        fn calculate_size(&self) -> Result<usize, RtcpWriteError> {
+            Ok(8)
+        }
+        fn write_into_unchecked(&self, buf: &mut [u8]) -> usize {
+            let n = rtcp_types::utils::writer::write_header_unchecked::<BeatView>(4, 5, buf);
+            n + rtcp_types::utils::writer::write_padding_unchecked(4, &mut buf[n..])
+        }
+        fn get_padding(&self) -> Option<u8> {
+            Some(4)
+        }
+    }
+}
+
+/// members: 0 = Beat, 1 = PaddedBeat, 2 = a library BYE; the list is a string over that alphabet
+pub(crate) fn c14_zst_oracle(c: &Bytes, st: &mut Stats) -> Verdict {
+    use rtcp_types::prelude::*;
+    let kinds = &c.0;
+    st.label(&format!("members:{}", kinds.len().min(7)));
+    let images: Vec<Vec<u8>> = kinds
+        .iter()
+        .map(|k| match k {
+            0 => vec![0x83, 250, 0, 0],
+            1 => vec![0xa5, 250, 0, 1, 0, 0, 0, 4],
+            _ => vec![0x81, 203, 0, 1, 0, 0, 0, 7],
+        })
+        .collect();
+    let padded_before_last = kinds.iter().rev().skip(1).any(|&k| k == 1);
+    let r = no_panic("compound of zero-sized writers", || {
+        let mut cb = rtcp_types::Compound::builder();
+        for k in kinds {
+            cb = match k {
+                0 => cb.add_packet(zst::Beat),
+                1 => cb.add_packet(zst::PaddedBeat),
+                _ => cb.add_packet(rtcp_types::Bye::builder().add_source(7)),
+            };
+        }
+        let size = cb.calculate_size();
+        let mut buf = prefill(64, true);
+        let written = cb.write_into(&mut buf);
+        (size, written, buf)
+    })
+    .map_err(|f| Failure::new(format!("C14:zero-sized-members:{}", f.signature), f.detail))?;
+    let (size, written, buf) = r;
+    let concat: Vec<u8> = images.concat();
+    if padded_before_last {
+        st.nontrivial();
+        st.label("a padded member that is not last");
+        ensure!(size.is_err() && written.is_err(), "C14:zero-sized-members:accepted-padded-non-last", "members {kinds:?} (1 = padded): calculate_size = {size:?}, write_into = {written:?}");
+    } else {
+        if kinds.len() >= 2 {
+            st.nontrivial();
+        }
+        ensure!(size.as_ref().ok() == Some(&concat.len()) && written.as_ref().ok() == Some(&concat.len()), "C14:zero-sized-members:size", "members {kinds:?}: calculate_size = {size:?}, write_into = {written:?}, the members add up to {}", concat.len());
+        ensure!(buf[..concat.len()] == concat[..], "C14:zero-sized-members:bytes", "members {kinds:?}: compound bytes {}, members concatenated {}", hex(&buf[..concat.len()]), hex(&concat));
+    }
+    Ok(())
+}
+
+fn zst_lists() -> Vec<Bytes> {
+    let mut v = Vec::new();
+    for n in 1..=4u32 {
+        for i in 0..3u32.pow(n) {
+            v.push(Bytes((0..n).map(|d| ((i / 3u32.pow(d)) % 3) as u8).collect()));
+        }
+    }
+    v
+}
+
 pub fn c14(tier: Tier) -> Check {
     Check {
         property: "C14",
@@ -1035,6 +1139,7 @@ pub fn c14(tier: Tier) -> Check {
         legs: vec![
             Box::new(RandomLeg { name: "random-member-lists", cases: tier.pick(200_000, 2_400_000), make: Box::new(compound_case), oracle: c14_oracle }),
             Box::new(ListLeg { name: "many-members-and-large-compounds", cases: many_members(), oracle: c14_oracle }),
+            Box::new(ListLeg { name: "zero-sized-third-party-members", cases: zst_lists(), oracle: c14_zst_oracle }),
             Box::new(SweepLeg {
                 name: "pairs-of-kinds-x-padding-position",
                 n: (KIND_TEMPLATES * KIND_TEMPLATES * 4) as u64,
